@@ -3,6 +3,10 @@
  *
  * dconf <home>                 -> OK <hex of the path defaultconf(home) returns> | EXIT <status>
  * renv <HOME|~> <TMPDIR|~>     -> OK <hex ev_home> <hex ev_tmpdir> | EXIT <status>      (~ = variable unset; HOME and TMPDIR set as given)
+ * renvz <HOME|~> <TMPDIR|~> <TZ|~> -> OK <hex ev_home> <hex ev_tmpdir> <t_state> <hex t_buf> <INTACT|CLOBBERED> | EXIT <status>
+ *        readenv() with TZ as well.  What readenv() does not assign - the options of the command line and the configuration path,
+ *        which main() has stored in the structure BEFORE it calls readenv() - is set to a pattern first and compared afterwards
+ *        (a copy with a wrong bound inside the structure is invisible to ASan; past the structure it hits the red zone).
  */
 #define main mdsort_main
 #include "mdsort.c"
@@ -27,6 +31,23 @@ static void handle(const char *op, struct arg *a, int n, FILE *out) {
 		readenv(&env);
 		fputs("OK ", out); puthex(out, env.ev_home, strlen(env.ev_home));
 		fputc(' ', out); puthex(out, env.ev_tmpdir, strlen(env.ev_tmpdir));
+	} else if (strcmp(op, "renvz") == 0 && n == 3) {
+		static const char *names[3] = { "HOME", "TMPDIR", "TZ" };
+		struct environment env;
+		int i;
+		for (i = 0; i < 3; i++) {
+			if (a[i].n == 1 && a[i].p[0] == '~') unsetenv(names[i]);
+			else if (setenv(names[i], (const char *)a[i].p, 1) == -1) { fputs("ERR setenv", out); return; }
+		}
+		memset(&env, 0, sizeof(env));
+		env.ev_options = 0xa5a5a5a5u;
+		env.ev_confpath = (const char *)names;
+		readenv(&env);
+		fputs("OK ", out); puthex(out, env.ev_home, strlen(env.ev_home));
+		fputc(' ', out); puthex(out, env.ev_tmpdir, strlen(env.ev_tmpdir));
+		fprintf(out, " %d ", (int)env.ev_tz.t_state);
+		puthex(out, env.ev_tz.t_buf, strnlen(env.ev_tz.t_buf, sizeof(env.ev_tz.t_buf)));
+		fputs(env.ev_options == 0xa5a5a5a5u && env.ev_confpath == (const char *)names ? " INTACT" : " CLOBBERED", out);
 	} else fputs("BADOP", out);
 }
 
